@@ -26,6 +26,8 @@ pub enum B {
     Detached,
     /// sleep 30 under a 400 ms per-test timeout
     Timeout,
+    /// like Timeout, but the shell ignores SIGTERM and the command ends by itself after 2 s
+    TimeoutImmune,
 }
 
 #[derive(Clone, Debug, Serialize, Deserialize, Hash)]
@@ -60,6 +62,7 @@ impl Doc {
             B::ScriptExit { code } => (format!("exit {code}"), vec![], None, String::new()),
             B::Detached => ("sleep 0.05".into(), vec![], None, "detached: true".into()),
             B::Timeout => ("sleep 30".into(), vec![], None, "timeout: 400ms".into()),
+            B::TimeoutImmune => ("trap '' TERM; sleep 2".into(), vec![], None, "timeout: 400ms".into()),
         };
         let cmd = if extra.is_empty() { format!("{log}; {cmd}") } else { format!("{log}; {extra}; {cmd}") };
         (cmd, exps, code, cfg)
@@ -143,7 +146,7 @@ pub fn reference_doc(doc: &Doc, seq: &[(String, usize, B, i32)]) -> (Vec<&'stati
         let (id, idx, b, skip) = &seq[i];
         log.push(format!("{id}:{idx}"));
         let code = match b {
-            B::Pass | B::FailOutput | B::Detached | B::Timeout => 0,
+            B::Pass | B::FailOutput | B::Detached | B::Timeout | B::TimeoutImmune => 0,
             B::FailExit => 1,
             B::Exit { code, .. } | B::ScriptExit { code } => *code,
         };
@@ -154,7 +157,7 @@ pub fn reference_doc(doc: &Doc, seq: &[(String, usize, B, i32)]) -> (Vec<&'stati
             }
             return (vec!["<error>"], log);
         }
-        if code == *skip && !matches!(b, B::Pass | B::FailOutput | B::Detached | B::Timeout) {
+        if code == *skip && !matches!(b, B::Pass | B::FailOutput | B::Detached | B::Timeout | B::TimeoutImmune) {
             if cram {
                 // the script runs on; the document is reported skipped afterwards
                 for (id2, idx2, _, _) in &seq[i + 1..] {
@@ -170,7 +173,7 @@ pub fn reference_doc(doc: &Doc, seq: &[(String, usize, B, i32)]) -> (Vec<&'stati
             B::Exit { expected, .. } => kinds.push(if *expected { "success" } else { "invalid_exit_code" }),
             B::ScriptExit { .. } => unreachable!(),
             B::Detached => kinds.push("detached?"),
-            B::Timeout => {
+            B::Timeout | B::TimeoutImmune => {
                 kinds.push("timeout");
                 for _ in &seq[i + 1..] {
                     kinds.push("skipped");
@@ -387,17 +390,17 @@ impl Engine for VcCli {
         // ---------------- C18
         let max_docs = if quick { 2 } else { 3 };
         for n in 1..=max_docs {
-            for w in words(7, n) {
+            for w in words(8, n) {
                 let classes: Vec<u8> = w.iter().map(|x| *x as u8).collect();
-                // at most one timeout per run (wall time), shell error only alone
-                if classes.iter().filter(|c| **c == 2).count() > 1 || (classes.contains(&6) && n > 1) {
+                // at most one timeout per run (wall time), shell error only alone; the SIGTERM-immune timeout only in short runs
+                if classes.iter().filter(|c| **c == 2 || **c == 7).count() > 1 || (classes.contains(&6) && n > 1) || (classes.contains(&7) && (n > 2 || classes.iter().any(|c| *c != 7 && *c != 0))) {
                     continue;
                 }
                 for flag in 0..3u8 {
                     for cram_mask in 0..(1u32 << n) {
                         let crams: Vec<bool> = (0..n).map(|k| cram_mask >> k & 1 == 1).collect();
                         // class 5 (script `exit 3`) is a cram class; 2 (per-test timeout) and 3 via inline need markdown
-                        if classes.iter().zip(crams.iter()).any(|(c, cr)| (*c == 5 && !*cr) || (*c == 2 && *cr)) {
+                        if classes.iter().zip(crams.iter()).any(|(c, cr)| (*c == 5 && !*cr) || ((*c == 2 || *c == 7) && *cr)) {
                             continue;
                         }
                         if n == max_docs && !quick && cram_mask != 0 && flag != 0 {
@@ -427,7 +430,7 @@ impl Engine for VcCli {
     fn bound(&self, tier: Tier) -> String {
         let q = tier == Tier::Quick;
         format!(
-            "C15: every Markdown document of 1..{d} test cases over {{pass, fail-output, fail-exit, exit 80, exit 80 with [80], exit 81, exit 81 with [81]}} x skip code setting {{default, front-matter defaults 81, inline 81}} x second document {{none, passing, failing}}; every Cram document of 1..{d} over the same plus a final plain `exit 80`. C20: every single Markdown document of 1..{d} test cases over {{pass, fail-output, fail-exit, exit 80, detached, timeout}} x 7 prepend/append variants (front-matter, -P/-A, both, failing prepend); every run of {n} documents over 7 document shapes (Markdown and Cram mixed) given as files, as a directory, and with -P; 4 error classes. C18: every run of 1..{n} documents over 7 outcome classes (success, validation failure, timeout, skip, parse error, script exit error, shell not executable) x {{no flag, --work-directory, --keep-temporary-directories}} x format mixes x same/different file names, plus tampering histories (test 1 overwrites TESTDIR / unsets TMPDIR) and {r} rounds of 4 concurrent scrut processes on one TMPDIR (sampling, not what the property is decided on)",
+            "C15: every Markdown document of 1..{d} test cases over {{pass, fail-output, fail-exit, exit 80, exit 80 with [80], exit 81, exit 81 with [81]}} x skip code setting {{default, front-matter defaults 81, inline 81}} x second document {{none, passing, failing}}; every Cram document of 1..{d} over the same plus a final plain `exit 80`. C20: every single Markdown document of 1..{d} test cases over {{pass, fail-output, fail-exit, exit 80, detached, timeout}} x 7 prepend/append variants (front-matter, -P/-A, both, failing prepend); every run of {n} documents over 7 document shapes (Markdown and Cram mixed) given as files, as a directory, and with -P; 4 error classes. C18: every run of 1..{n} documents over 8 outcome classes (success, validation failure, timeout, skip, parse error, script exit error, shell not executable, timeout of a shell that ignores SIGTERM - observed after that shell has ended) x {{no flag, --work-directory, --keep-temporary-directories}} x format mixes x same/different file names, plus tampering histories (test 1 overwrites TESTDIR / unsets TMPDIR) and {r} rounds of 4 concurrent scrut processes on one TMPDIR (sampling, not what the property is decided on)",
             d = if q { 2 } else { 3 },
             n = if q { 2 } else { 3 },
             r = if q { 3 } else { 20 }
@@ -756,6 +759,7 @@ fn check_env(case: &CliCase, classes: &[u8], crams: &[bool], same_names: bool, f
             2 => vec![B::Pass, B::Timeout, B::Pass],
             3 => vec![B::Pass, B::Exit { code: 80, expected: false }],
             5 => vec![B::Pass, B::ScriptExit { code: 3 }, B::Pass],
+            7 => vec![B::Pass, B::TimeoutImmune, B::Pass],
             _ => vec![B::Pass],
         };
         if *c == 4 {
@@ -805,8 +809,14 @@ fn check_env(case: &CliCase, classes: &[u8], crams: &[bool], same_names: bool, f
     }
     args.extend(order.clone());
     let refs: Vec<&str> = args.iter().map(|s| s.as_str()).collect();
-    let run = run_scrut(&sb, &refs, &env_for(&sb), Duration::from_secs(90));
-    let describe = || format!("classes {classes:?} (0 ok,1 validation failure,2 timeout,3 skip,4 parse error,5 script exit,6 shell not executable) cram {crams:?} same_names={same_names} flag={flag} (1 --work-directory, 2 --keep-temporary-directories) tamper={tamper}");
+    // a timed out shell that ignores SIGTERM ends by itself 2 s after it started: look at the directories after that
+    let linger = classes.contains(&7);
+    let run = run_scrut_observed(&sb, &refs, &env_for(&sb), Duration::from_secs(90), &mut || {
+        if linger {
+            std::thread::sleep(Duration::from_millis(2600));
+        }
+    });
+    let describe = || format!("classes {classes:?} (0 ok,1 validation failure,2 timeout,3 skip,4 parse error,5 script exit,6 shell not executable,7 timeout of a shell that ignores SIGTERM) cram {crams:?} same_names={same_names} flag={flag} (1 --work-directory, 2 --keep-temporary-directories) tamper={tamper}");
     if run.timed_out {
         res.findings.push(Finding::new("C18", "run-terminates", describe(), "no exit within 90 s".to_string()));
         return res;
